@@ -1,3 +1,553 @@
 package main
 
-func cmdCheck(id, tier string) int { return 2 }
+// symgo check <ID> <tier>: decide one property and write evidence/<ID>.json.
+//
+// exit 0: every assertion of every harness of the property is unsat-proved within the bounds, no
+//         vacuity, translator validation clean (KNOWN-FINDING lines may be printed)
+// exit 1: a violation reproduced natively and not listed in known_findings.txt (VIOLATION line)
+// exit 2: inconclusive (unsupported construct, solver unknown, unwinding bound, vacuous harness,
+//         counterexample that does not reproduce) -- never a VIOLATION line
+
+import (
+	"encoding/json"
+	"fmt"
+	"os"
+	"path/filepath"
+	"regexp"
+	"runtime"
+	"sort"
+	"strings"
+	"sync"
+	"time"
+
+	"golang.org/x/tools/go/ssa"
+)
+
+type knownFinding struct {
+	Property string
+	Label    string
+	Text     string
+}
+
+func loadKnownFindings() []knownFinding {
+	b, err := os.ReadFile(filepath.Join(verifDir, "known_findings.txt"))
+	if err != nil {
+		return nil
+	}
+	var out []knownFinding
+	re := regexp.MustCompile(`^finding:\s+property=(\S+)\s+label=(\S+)\s*(.*)$`)
+	for _, l := range strings.Split(string(b), "\n") {
+		if m := re.FindStringSubmatch(strings.TrimSpace(l)); m != nil {
+			out = append(out, knownFinding{m[1], m[2], m[3]})
+		}
+	}
+	return out
+}
+
+// staticLabels finds the constant first arguments of verifrt.Assert / verifrt.Cover calls reachable
+// from fn through functions of the same package (harness helpers).
+func staticLabels(fn *ssa.Function) (asserts, covers map[string]bool) {
+	asserts, covers = map[string]bool{}, map[string]bool{}
+	seen := map[*ssa.Function]bool{}
+	var visit func(f *ssa.Function)
+	visit = func(f *ssa.Function) {
+		if f == nil || seen[f] || f.Blocks == nil {
+			return
+		}
+		seen[f] = true
+		for _, af := range f.AnonFuncs {
+			visit(af)
+		}
+		for _, b := range f.Blocks {
+			for _, ins := range b.Instrs {
+				c, ok := ins.(ssa.CallInstruction)
+				if !ok {
+					continue
+				}
+				callee := c.Common().StaticCallee()
+				if callee == nil {
+					continue
+				}
+				name := callee.String()
+				if name == rtPkg+"Assert" || name == rtPkg+"Cover" {
+					if k, ok := c.Common().Args[0].(*ssa.Const); ok && k.Value != nil {
+						s := strings.Trim(k.Value.ExactString(), `"`)
+						if name == rtPkg+"Assert" {
+							asserts[s] = true
+						} else {
+							covers[s] = true
+						}
+					}
+					continue
+				}
+				if callee.Pkg == fn.Pkg && strings.Contains(filepath.Base(callee.Prog.Fset.Position(callee.Pos()).Filename), "zz_verif_") {
+					visit(callee)
+				}
+			}
+		}
+	}
+	visit(fn)
+	return
+}
+
+func sanitize(s string) string {
+	return regexp.MustCompile(`[^A-Za-z0-9_.-]+`).ReplaceAllString(s, "_")
+}
+
+type harnessEvidence struct {
+	Name        string         `json:"harness"`
+	Paths       int            `json:"paths"`
+	Ends        map[string]int `json:"path_ends"`
+	Queries     int            `json:"queries"`
+	Unsat       int            `json:"queries_unsat"`
+	Sat         int            `json:"queries_sat"`
+	Unknown     int            `json:"queries_unknown"`
+	SolverS     float64        `json:"solver_time_s"`
+	WallS       float64        `json:"wall_s"`
+	Steps       int            `json:"ssa_steps"`
+	Proved      map[string]int `json:"assertions_proved"`
+	Violated    map[string]int `json:"assertions_violated,omitempty"`
+	Covers      map[string]int `json:"covers"`
+	Inconclusive string        `json:"inconclusive,omitempty"`
+	XSolver     string         `json:"cross_solver,omitempty"`
+}
+
+func cmdCheck(id, tierName string) int {
+	t0 := time.Now()
+	tier := 0
+	if tierName == "thorough" {
+		tier = 1
+	} else if tierName != "quick" {
+		fmt.Fprintln(os.Stderr, "tier must be quick or thorough")
+		return 2
+	}
+	seed := int64(envInt("VERIF_SEED", 1))
+	dirs := dirsForProperty(id)
+	if len(dirs) == 0 {
+		fmt.Fprintf(os.Stderr, "no harness for property %s\n", id)
+		return 2
+	}
+	outDir := filepath.Join(verifDir, "out", id)
+	os.RemoveAll(outDir)
+	os.MkdirAll(filepath.Join(outDir, "replay"), 0o755)
+	inconclusive := []string{}
+	P, err := loadProgram(dirs)
+	if err != nil {
+		fmt.Println("INCONCLUSIVE: cannot load /repo with the harness overlay:", err)
+		return 2
+	}
+	var hs []harnessRef
+	for _, h := range findHarnesses(P, dirs) {
+		if h.prop != id {
+			continue
+		}
+		if h.thoroughOnly && tier == 0 {
+			continue
+		}
+		hs = append(hs, h)
+	}
+	if only := os.Getenv("SYMGO_ONLY"); only != "" {
+		var f []harnessRef
+		for _, h := range hs {
+			if strings.Contains(h.name, only) {
+				f = append(f, h)
+			}
+		}
+		hs = f
+	}
+	fmt.Printf("property %s tier %s: %d harnesses, load+build %.1fs\n", id, tierName, len(hs), P.loadSecs)
+
+	// run harnesses, a few at a time
+	ncpu := runtime.NumCPU()
+	conc := 4
+	if len(hs) < conc {
+		conc = len(hs)
+	}
+	if conc < 1 {
+		conc = 1
+	}
+	perWorkers := (ncpu + conc - 1) / conc
+	if perWorkers < 2 {
+		perWorkers = 2
+	}
+	timeout := 60000
+	maxPaths := envInt("SYMGO_MAXPATHS", 60000)
+	witnessEvery := 4
+	if tier == 1 {
+		timeout = 300000
+		maxPaths = envInt("SYMGO_MAXPATHS", 400000)
+		witnessEvery = 1
+	}
+	results := make([]*HarnessResult, len(hs))
+	sem := make(chan bool, conc)
+	var wg sync.WaitGroup
+	for i := range hs {
+		wg.Add(1)
+		go func(i int) {
+			defer wg.Done()
+			sem <- true
+			defer func() { <-sem }()
+			results[i] = explore(P, hs[i].fn, ExploreOpts{Workers: perWorkers, Unwind: envInt("SYMGO_UNWIND", 400), MaxPaths: maxPaths,
+				TimeoutMs: timeout, Tier: tier, WitnessEvery: witnessEvery, Seed: seed, SolverKind: "z3"})
+		}(i)
+	}
+	wg.Wait()
+
+	known := loadKnownFindings()
+	isKnown := func(label string) *knownFinding {
+		for i := range known {
+			if known[i].Property == id && known[i].Label == label {
+				return &known[i]
+			}
+		}
+		return nil
+	}
+
+	var hev []harnessEvidence
+	totalPaths, totalQueries := 0, 0
+	var solverS float64
+	funcs := map[string]bool{}
+	var samples []interface{}
+	type pendingReplay struct {
+		file     string
+		hi       int
+		label    string
+		violation bool
+	}
+	var replays []pendingReplay
+	replayByDir := map[string][]string{}
+	events := map[string]bool{}
+	for i, res := range results {
+		h := hs[i]
+		printResult(res, false)
+		totalPaths += res.Paths
+		totalQueries += res.Queries
+		solverS += res.SolverSecs
+		for f := range res.Funcs {
+			funcs[f] = true
+		}
+		for ev := range res.Events {
+			events[ev] = true
+		}
+		ev := harnessEvidence{Name: res.Name, Paths: res.Paths, Ends: res.Ends, Queries: res.Queries, Unsat: res.Unsat, Sat: res.Sat,
+			Unknown: res.UnknownQ, SolverS: round3(res.SolverSecs), WallS: round3(res.WallSecs), Steps: res.Steps, Proved: res.Proved, Violated: res.Violated,
+			Covers: res.Covers, Inconclusive: res.Err}
+		if res.Err != "" {
+			inconclusive = append(inconclusive, res.Name+": "+res.Err)
+		}
+		if res.UnknownQ > 0 || len(res.Unknown) > 0 {
+			inconclusive = append(inconclusive, fmt.Sprintf("%s: %d solver unknowns", res.Name, res.UnknownQ))
+		}
+		// vacuity: every Assert and Cover label present in the harness must have been reached
+		wantA, wantC := staticLabels(h.fn)
+		if res.Err == "" {
+			for l := range wantA {
+				if res.Proved[l]+res.Violated[l]+res.Unknown[l] == 0 {
+					inconclusive = append(inconclusive, fmt.Sprintf("%s: assertion %s never reached (vacuous)", res.Name, l))
+				}
+			}
+			for l := range wantC {
+				if res.Covers[l] == 0 {
+					inconclusive = append(inconclusive, fmt.Sprintf("%s: cover point %s unreachable (vacuous)", res.Name, l))
+				}
+			}
+		}
+		// violations -> replay files (up to 2 witnesses per label)
+		perLabel := map[string]int{}
+		for _, v := range res.Violations {
+			perLabel[v.Label]++
+			if perLabel[v.Label] > 2 || v.Witness == nil {
+				continue
+			}
+			rf := replayFile{Harness: res.Name, Label: v.Label, Values: stripProbes(v.Witness), Probes: onlyProbes(v.Witness), Note: v.Site, Dir: h.dir}
+			path := filepath.Join(outDir, "replay", fmt.Sprintf("%s.%s.%d.json", res.Name, sanitize(v.Label), perLabel[v.Label]))
+			writeReplay(path, &rf, tier)
+			replays = append(replays, pendingReplay{file: path, hi: i, label: v.Label, violation: true})
+			replayByDir[h.dir] = append(replayByDir[h.dir], path)
+		}
+		// path witnesses -> translator validation
+		for k, w := range res.Witnesses {
+			if tier == 0 && k >= 12 {
+				break
+			}
+			if tier == 1 && k >= 200 {
+				break
+			}
+			rf := replayFile{Harness: res.Name, Label: "", Values: stripProbes(w.Witness), Probes: onlyProbes(w.Witness), Note: "path witness " + w.ID + " " + w.End, Dir: h.dir}
+			path := filepath.Join(outDir, "replay", fmt.Sprintf("%s.witness.%s.json", res.Name, w.ID))
+			writeReplay(path, &rf, tier)
+			replays = append(replays, pendingReplay{file: path, hi: i, label: "", violation: false})
+			replayByDir[h.dir] = append(replayByDir[h.dir], path)
+		}
+		for _, s := range res.Samples {
+			if len(samples) < 12 {
+				samples = append(samples, map[string]interface{}{"harness": res.Name, "path": s})
+			}
+		}
+		hev = append(hev, ev)
+	}
+
+	// native replays
+	outcomes := map[string]*replayOutcome{}
+	for dir, files := range replayByDir {
+		res, out, err := runReplays(dir, files)
+		if err != nil {
+			inconclusive = append(inconclusive, "native replay failed: "+err.Error())
+			fmt.Println(tailLines(out, 30))
+		}
+		for f, o := range res {
+			outcomes[f] = o
+		}
+	}
+	violationsReported := 0
+	knownHit := []string{}
+	validated := 0
+	reported := map[string]bool{}
+	reproduced := map[string]bool{}
+	notReproduced := map[string]string{}
+	for _, r := range replays {
+		o := outcomes[r.file]
+		key := hs[r.hi].name + "|" + r.label
+		if r.violation {
+			ok := false
+			if o != nil {
+				if r.label == "uncaught-panic" {
+					ok = o.Panic != ""
+				} else {
+					for _, l := range o.FailedAsserts {
+						if l == r.label {
+							ok = true
+						}
+					}
+				}
+			}
+			if ok {
+				reproduced[key] = true
+				if !reported[key] {
+					reported[key] = true
+					if kf := isKnown(r.label); kf != nil {
+						fmt.Printf("KNOWN-FINDING: property=%s %s (%s) replay=%s\n", id, r.label, kf.Text, r.file)
+						knownHit = append(knownHit, r.label)
+					} else {
+						fmt.Printf("VIOLATION property=%s replay=%s\n", id, r.file)
+						fmt.Printf("   assertion %s of %s fails natively\n", r.label, hs[r.hi].name)
+						violationsReported++
+					}
+				}
+			} else {
+				why := "no outcome"
+				if o != nil {
+					js, _ := json.Marshal(o)
+					why = string(js)
+					if len(why) > 400 {
+						why = why[:400]
+					}
+				}
+				notReproduced[key] = r.file + ": " + why
+			}
+		} else {
+			// translator validation: a path witness must run natively without failed assertions,
+			// without missing values, and with matching probes
+			if o == nil {
+				inconclusive = append(inconclusive, "ENGINE-MISMATCH: no native outcome for "+r.file)
+				continue
+			}
+			if o.AssumeFailed {
+				// model values of uninterpreted functions (hashes, bech32) need not satisfy native assumptions
+				continue
+			}
+			bad := ""
+			if len(o.FailedAsserts) > 0 && !allKnownOrViolated(o.FailedAsserts, results[r.hi]) {
+				bad = "native run fails assertions " + strings.Join(o.FailedAsserts, ",")
+			}
+			rf := readReplay(r.file)
+			for k, want := range rf.Probes {
+				if got, ok := o.Probes[k]; ok && got != want {
+					bad = fmt.Sprintf("probe %s: engine %s native %s", k, want, got)
+				}
+			}
+			if bad != "" {
+				inconclusive = append(inconclusive, "ENGINE-MISMATCH: "+r.file+": "+bad)
+			} else {
+				validated++
+			}
+		}
+	}
+	for key, why := range notReproduced {
+		if !reproduced[key] {
+			inconclusive = append(inconclusive, "counterexample does not reproduce natively ("+key+"): "+why)
+		}
+	}
+
+	// cross-solver agreement (thorough): re-decide the cheaper harnesses with z3 5.x and compare
+	xs := "not run in this tier"
+	if tier == 1 || os.Getenv("SYMGO_XSOLVER") != "" {
+		agree, total := 0, 0
+		for i, res := range results {
+			if res.Err != "" || res.WallSecs > 120 {
+				continue
+			}
+			total++
+			r2 := explore(P, hs[i].fn, ExploreOpts{Workers: ncpu, Unwind: envInt("SYMGO_UNWIND", 400), MaxPaths: maxPaths, TimeoutMs: timeout, Tier: tier, SolverKind: "z3-new"})
+			if r2.Err == "" && r2.Paths == res.Paths && sameCounts(r2.Proved, res.Proved) && sameCounts(r2.Violated, res.Violated) {
+				agree++
+				hev[i].XSolver = "z3-new agrees"
+			} else {
+				hev[i].XSolver = fmt.Sprintf("z3-new DISAGREES: paths %d vs %d err=%q", r2.Paths, res.Paths, r2.Err)
+				inconclusive = append(inconclusive, "cross-solver disagreement on "+res.Name+": "+hev[i].XSolver)
+			}
+		}
+		xs = fmt.Sprintf("z3 4.8.12 vs z3 5.1.0: %d/%d harnesses re-decided with identical path sets and verdicts", agree, total)
+	}
+
+	// evidence
+	var evs []string
+	for e := range events {
+		evs = append(evs, e)
+	}
+	sort.Strings(evs)
+	cov := map[string]interface{}{
+		"states":                        totalPaths,
+		"transitions":                   totalQueries,
+		"traces_validated_against_impl": validated,
+		"samples":                       samples,
+		"harnesses":                     hev,
+		"functions_encoded":             sortedKeys(funcs),
+		"solver":                        "z3 4.8.12 (QF_UFBV, one incremental process per worker)",
+		"solver_time_s":                 round3(solverS),
+		"cross_solver":                  xs,
+		"unwinding_bound":               envInt("SYMGO_UNWIND", 400),
+		"unwinding_assertions_ok":       !containsSub(inconclusive, "unwinding"),
+		"known_findings_hit":            knownHit,
+		"inconclusive":                  inconclusive,
+		"engine_events":                 evs,
+		"rule":                          "states = feasible symbolic paths explored to completion; transitions = SMT queries discharged (feasibility + assertion); traces_validated = solver-chosen path witnesses re-run natively against the real build with identical assertion outcomes",
+	}
+	if len(samples) == 0 {
+		cov["samples"] = []interface{}{"no path completed"}
+	}
+	if totalPaths == 0 {
+		cov["states"] = 1
+	}
+	if totalQueries == 0 {
+		cov["transitions"] = 1
+	}
+	evd := map[string]interface{}{
+		"property_id": id,
+		"tier":        tierName,
+		"seed":        seed,
+		"level":       "model_checking",
+		"coverage":    cov,
+		"assumptions": assumptionsFor(id),
+		"wall_s":      round3(time.Since(t0).Seconds()),
+		"violations":  violationsReported,
+	}
+	os.MkdirAll(filepath.Join(verifDir, "evidence"), 0o755)
+	b, _ := json.MarshalIndent(evd, "", " ")
+	os.WriteFile(filepath.Join(verifDir, "evidence", id+".json"), b, 0o644)
+
+	if violationsReported > 0 {
+		return 1
+	}
+	if len(inconclusive) > 0 {
+		for _, s := range inconclusive {
+			fmt.Println("INCONCLUSIVE:", s)
+		}
+		return 2
+	}
+	fmt.Printf("OK property=%s tier=%s paths=%d queries=%d validated_traces=%d wall=%.1fs\n", id, tierName, totalPaths, totalQueries, validated, time.Since(t0).Seconds())
+	return 0
+}
+
+func allKnownOrViolated(failed []string, res *HarnessResult) bool {
+	for _, l := range failed {
+		if res.Violated[l] == 0 {
+			return false
+		}
+	}
+	return true
+}
+
+func sameCounts(a, b map[string]int) bool {
+	for k, v := range a {
+		if v > 0 && b[k] == 0 {
+			return false
+		}
+	}
+	for k, v := range b {
+		if v > 0 && a[k] == 0 {
+			return false
+		}
+	}
+	return true
+}
+
+func containsSub(ss []string, sub string) bool {
+	for _, s := range ss {
+		if strings.Contains(s, sub) {
+			return true
+		}
+	}
+	return false
+}
+
+func round3(f float64) float64 { return float64(int(f*1000+0.5)) / 1000 }
+
+func tailLines(s string, n int) string {
+	ls := strings.Split(s, "\n")
+	if len(ls) > n {
+		ls = ls[len(ls)-n:]
+	}
+	return strings.Join(ls, "\n")
+}
+
+func stripProbes(w map[string]string) map[string]string {
+	out := map[string]string{}
+	for k, v := range w {
+		if !strings.HasPrefix(k, "probe:") {
+			out[k] = v
+		}
+	}
+	return out
+}
+
+func onlyProbes(w map[string]string) map[string]string {
+	out := map[string]string{}
+	for k, v := range w {
+		if strings.HasPrefix(k, "probe:") {
+			out[strings.TrimPrefix(k, "probe:")] = v
+		}
+	}
+	return out
+}
+
+func writeReplay(path string, rf *replayFile, tier int) {
+	m := map[string]interface{}{"harness": rf.Harness, "label": rf.Label, "values": rf.Values, "probes": rf.Probes, "note": rf.Note, "dir": rf.Dir, "tier": tier}
+	b, _ := json.MarshalIndent(m, "", " ")
+	os.WriteFile(path, b, 0o644)
+}
+
+func readReplay(path string) *replayFile {
+	rf := &replayFile{}
+	b, err := os.ReadFile(path)
+	if err == nil {
+		json.Unmarshal(b, rf)
+	}
+	return rf
+}
+
+func assumptionsFor(id string) []string {
+	common := []string{
+		"go/ssa lowering of the current /repo tree is faithful; the engine's SSA semantics are validated per run by replaying solver-chosen path witnesses natively",
+		"external callee models of DESIGN.md 3.4 (Keccak-256 as an injective uninterpreted function, bech32 encode/decode as mutually inverse uninterpreted functions, protobuf Marshal/Unmarshal as identity on module-written values, KV store as a write log over an empty base with byte-lexicographic iteration)",
+		"bounds: every symbolic byte string has the capacity declared in its harness; loops are unwound by path forking with unwinding bound 400 per function activation (exceeding it is reported as inconclusive)",
+	}
+	b, err := os.ReadFile(filepath.Join(verifDir, "spec", "assumptions.json"))
+	if err == nil {
+		m := map[string][]string{}
+		if json.Unmarshal(b, &m) == nil {
+			common = append(common, m[id]...)
+		}
+	}
+	return common
+}
